@@ -2,6 +2,7 @@ package c20
 
 import (
 	"fmt"
+	"strings"
 	"time"
 
 	"verif/engine"
@@ -12,7 +13,7 @@ type Prop struct{}
 func (Prop) ID() string    { return "C20" }
 func (Prop) Level() string { return "model_checking" }
 func (Prop) Configs(tier string) []string {
-	return []string{"c-race", "c-race-nopclmul", "c-race-noaes", "c-race-noavx2", "c-race-aesni1"}
+	return []string{"c-race", "c-race-purego", "c-race-nopclmul", "c-race-noaes", "c-race-noavx2", "c-race-aesni1"}
 }
 
 // tierDependent lists the scenarios whose shared objects are implemented differently per CPU dispatch tier
@@ -35,20 +36,39 @@ func (Prop) Assumptions() []string {
 		"data-race freedom is judged by the Go race detector (happens-before); hardware reorderings beyond the Go memory model are out of reach",
 		"the sync shim (hooks/verifsync) reproduces the happens-before edges of sync.Once / Mutex / RWMutex; other primitives are passed through",
 		"GOMAXPROCS=1; package-level singletons are re-armed between executions only in the S6 scenarios",
-		"all scenarios run on the default dispatch tier; the scenarios whose shared objects differ per tier (SM4 block/AEAD/modes, SM3 KDF, SM9 decrypt) are repeated with pclmulqdq off, aes off, avx2 off and single-block AES-NI",
+		"all scenarios run on the default dispatch tier and in the pure-Go build (where every store is visible to the race detector; assembly is not instrumented); the scenarios whose shared objects differ per tier (SM4 block/AEAD/modes, SM3 KDF, SM9 decrypt) are repeated with pclmulqdq off, aes off, avx2 off and single-block AES-NI",
 	}
 }
 
 func (Prop) Run(c *engine.Ctx) {
 	quick := c.Quick()
+	primary := c.Config == "c-race"
 	for _, sc := range allScenarios() {
 		sc := sc
-		if c.Config != "c-race" && !tierDependent[sc.name] {
+		if !primary && c.Config != "c-race-purego" && !tierDependent[sc.name] {
 			continue
 		}
-		sb := 3
+		// declared bounds. Primary configuration (default tier): sync points <= 3 preemptions (thorough 6), sync points +
+		// function-entry yields <= 1 (thorough 2). Other configurations (further tiers, pure-Go build) exist for what the
+		// race detector sees there: sync points <= 2 (thorough 4), yields: all serial orders (thorough <= 1).
+		sb, yb := 3, 1
 		if !quick {
-			sb = 6
+			sb, yb = 6, 2
+		}
+		if !primary {
+			sb, yb = 2, 0
+			if !quick {
+				sb, yb = 4, 1
+			}
+		}
+		if quick && strings.Contains(sc.name, "sm9") && sb > 2 {
+			sb = 2 // an SM9 execution costs 10-20 ms under the race detector (pairings)
+		}
+		if c.Config == "c-race-purego" && strings.Contains(sc.name, "sm9") {
+			sb = 1 // pure-Go pairings under the race detector: 0.3 s per execution
+			if !quick {
+				sb = 2
+			}
 		}
 		c.Case(fmt.Sprintf("%s/syncpoints/bound=%d", sc.name, sb), func(t *engine.T) {
 			max, budget := 20000, 120*time.Second
@@ -57,14 +77,12 @@ func (Prop) Run(c *engine.Ctx) {
 			}
 			runScenario(t, sc, false, sb, max, budget)
 		})
-		bound := 1
-		max, budget := 2500, 90*time.Second
+		max, budget := 6000, 120*time.Second
 		if !quick {
-			bound = 2
 			max, budget = 400000, 25*time.Minute
 		}
-		c.Case(fmt.Sprintf("%s/yields/bound=%d", sc.name, bound), func(t *engine.T) {
-			runScenario(t, sc, true, bound, max, budget)
+		c.Case(fmt.Sprintf("%s/yields/bound=%d", sc.name, yb), func(t *engine.T) {
+			runScenario(t, sc, true, yb, max, budget)
 		})
 	}
 }
